@@ -477,6 +477,12 @@ NEUTRAL_UNRECOGNISED = {
     # (repaired variants of round-F seeds, DESIGN 11.19)
     # a new encoder primitive that writes a whole index list in runs whose length is computed from m_avail by a division: the
     # emission grammar does not know the primitive and R06.2 does not decide the computed reservation - C01, C02, C06 exit 2
+    # (neutral round 9)
+    # write_int rebuilt as head-shape selection, one room test and a fall-through store switch through a pointer to the last byte:
+    # the cell-wise partial evaluation of R06.1 / R06.4 does not follow stores through a computed pointer - C01, C06, C15, C16 exit 2
+    "C02k/refactor2.diff": "write_int with a fall-through store switch through a computed pointer",
+    # cdns-merge's index table behind a BlockIndexRemapper class with a one-entry look-aside: R18.1 / R18.2 do not expand translate()
+    "C18k/refactor2.diff": "BlockIndexRemapper with a look-aside in cdns-merge",
     "C10j/refactor1.diff": "CdnsEncoder::write_array in runs sized by m_avail / MAX_INDEX_SIZE",
     # (same primitive as a template for the preamble's code lists: R06.2 proves the run reservation, the emission grammar of C02 /
     # C09 does not know the primitive - exit 2 there)
